@@ -253,6 +253,14 @@ Definition frames_ok (hl : nat) (hs : list (nat * lmode)) (fr : list (list qitem
   Forall2 (fun x (items : list qitem) =>
              Forall (fun it : qitem => fst x < fst (fst it) /\ fst (fst it) < hl) items) hs fr.
 
+(** Delete's frames pair with the locks it holds: frame i is for the node
+    whose WRITE lock is the i-th held lock; children still to process have
+    larger ids than their parent *)
+Definition dframes_ok (hl : nat) (hs : list (nat * lmode)) (fr : list dframe) : Prop :=
+  Forall2 (fun x f => x = (dn f, MW) /\
+                      Forall (fun kc : string * nat => dn f < snd kc /\ snd kc < hl) (dtodo f))
+          hs fr.
+
 Definition pc_ok (hl : nat) (hs : list (nat * lmode)) (p : pc) : Prop :=
   match p with
   | PStart _ | PDone _ => hs = []
@@ -270,6 +278,11 @@ Definition pc_ok (hl : nat) (hs : list (nat * lmode)) (p : pc) : Prop :=
   | PQEnter t0 _ _ _ fr => waiting hl hs t0 /\ frames_ok hl hs fr
   | PQRead t0 _ _ _ fr => inside hs t0 MR /\ frames_ok hl (tl hs) fr
   | PQVisit _ _ _ fr | PQNext _ fr => rooted hs /\ frames_ok hl hs fr
+  | PLDel _ | PLDelAcq _ => hs = []
+  | PLVisit n _ fr => inside hs n MW /\ dframes_ok hl (tl hs) fr
+  | PLNext fr | PLBack _ _ fr => rooted hs /\ hs <> [] /\ dframes_ok hl hs fr
+  | PLEnter c _ fr | PLCAcq c _ fr => waiting hl hs c /\ hs <> [] /\ dframes_ok hl hs fr
+  | PLRet _ _ fr => rooted hs /\ exists n r, hs = (n, MW) :: r /\ dframes_ok hl r fr
   end.
 
 Definition thread_ok (hl : nat) (t : thread) : Prop :=
@@ -301,6 +314,12 @@ Proof.
   eapply Forall_impl; [|eassumption]. cbn. intros; lia.
 Qed.
 
+Lemma dframes_ok_mono hl hl' hs fr : hl <= hl' -> dframes_ok hl hs fr -> dframes_ok hl' hs fr.
+Proof.
+  intros L H. induction H as [|x f hs fr [E F] _ IH]; constructor; auto.
+  split; auto. eapply Forall_impl; [|exact F]. cbn. intros; lia.
+Qed.
+
 Lemma waiting_mono hl hl' hs n : hl <= hl' -> waiting hl hs n -> waiting hl' hs n.
 Proof. intros L [A B]. split; [lia|auto]. Qed.
 
@@ -311,7 +330,8 @@ Proof.
            | H : _ /\ _ |- _ => destruct H
            | |- _ /\ _ => split
            | k : ucont |- _ => destruct k
-           end; eauto using waiting_mono, frames_ok_mono; try lia.
+           | H : exists _, _ |- _ => destruct H
+           end; eauto 7 using waiting_mono, frames_ok_mono, dframes_ok_mono; try lia.
 Qed.
 
 Lemma thread_ok_mono hl hl' t : hl <= hl' -> thread_ok hl t -> thread_ok hl' t.
@@ -513,6 +533,7 @@ Proof.
     + apply waiting_root; auto.
     + split; [apply waiting_root; auto|constructor].
     + reflexivity.
+    + reflexivity.
     + destruct (Nat.ltb_spec n (List.length h')); cbn; auto.
     + destruct (Nat.ltb_spec n (List.length h')); cbn; auto.
   - (* PAddEnter *) cbn in PO. destruct p as [|k r]; cbn in ST.
@@ -634,6 +655,70 @@ Proof.
         -- constructor; [auto|]. destruct SO as [I _]. eapply ids_lt_mono; [exact I|lia].
         -- split; [discriminate|auto].
       * constructor; auto.
+  - (* PLDel *) cbn in PO. inv ST. rewrite length_do_req. split; [apply heap_ok_req; auto|].
+    split; [auto|]. apply mk_thread_ok; cbn; auto.
+  - (* PLDelAcq *) cbn in PO. subst hs. destruct (can_lock h 0); [|discriminate]. inv ST.
+    rewrite length_do_acq. split; [apply heap_ok_acq; auto|]. split; [auto|].
+    destruct HO as [L0 _].
+    apply mk_thread_ok; [cbn; split; [constructor|auto]|constructor; [auto|constructor]|].
+    cbn. split; [split; [eexists; reflexivity|right; exists MW; left; reflexivity]|constructor].
+  - (* PLVisit *) cbn in PO. destruct PO as [IN F]. assert (IN' := IN). destruct IN' as [[r0 Hr] R].
+    subst hs. cbn in F.
+    assert (Lt : n < List.length h) by (inv IL; auto).
+    assert (NX : forall q' cs, get_cont h n = CBranch cs ->
+                 thread_ok (List.length h) (TH o (PLNext (DF n q' "" cs [] :: fr)) ((n, MW) :: r0))).
+    { intros q' cs E. apply mk_thread_ok; auto. cbn. split; [auto|]. split; [discriminate|].
+      constructor; [|auto]. split; [reflexivity|]. cbn. destruct HO as [_ HO']. eauto. }
+    assert (RT : forall d ls, thread_ok (List.length h) (TH o (PLRet d ls fr) ((n, MW) :: r0))).
+    { intros d ls. apply mk_thread_ok; auto. cbn. split; [auto|]. eauto. }
+    destruct (heads_all q).
+    + destruct (get_cont h n) as [| |cs] eqn:E; inv ST.
+      * split; [auto|]. split; [auto|]. apply RT.
+      * destruct (strip_glob q); (split; [auto|]; split; [auto|]; apply RT).
+      * split; [auto|]. split; [auto|]. apply NX. reflexivity.
+    + destruct q as [|k r]; [inv ST; split; [auto|]; split; [auto|]; apply RT|].
+      destruct (get_cont h n) as [| |cs] eqn:E; try (inv ST; split; [auto|]; split; [auto|]; apply RT).
+      destruct (assoc k cs) as [c|] eqn:A; inv ST; (split; [auto|]; split; [auto|]); [|apply RT].
+      apply mk_thread_ok; auto. cbn. split; [auto|]. split; [discriminate|].
+      constructor; [|auto]. split; [reflexivity|]. cbn. constructor; [|constructor].
+      destruct HO as [_ HO']. specialize (HO' _ _ E). rewrite Forall_forall in HO'.
+      apply (HO' _ (assoc_In _ _ _ A)).
+  - (* PLNext *) cbn in PO. destruct PO as [R [NE F]]. destruct fr as [|f fr]; [inv F; contradiction|].
+    assert (F0 := F). inversion F0 as [|x f0 l fr0 [Ex Ft] Frest]; subst. clear F0.
+    destruct (dtodo f) as [|[k c] rest] eqn:Dt; inv ST; (split; [auto|]; split; [auto|]).
+    + apply mk_thread_ok; auto. cbn. split; [auto|]. eauto.
+    + inversion Ft as [|kc0 rest0 [L1 L2] Ft']; subst. cbn in L1, L2.
+      apply mk_thread_ok; auto. cbn. split; [|split; [discriminate|]].
+      * split; [auto|]. split; [|split; [discriminate|auto]].
+        constructor; [cbn; auto|]. destruct SO as [I _]. eapply ids_lt_mono; [exact I|cbn; lia].
+      * constructor; [|auto]. split; [reflexivity|]. cbn. auto.
+  - (* PLEnter *) cbn in PO. destruct PO as [W [NE F]]. inv ST. rewrite length_do_req.
+    split; [apply heap_ok_req; auto|]. split; [auto|]. apply mk_thread_ok; cbn; auto.
+  - (* PLCAcq *) cbn in PO. destruct PO as [W [NE F]]. destruct (can_lock h c); [|discriminate]. inv ST.
+    rewrite length_do_acq. split; [apply heap_ok_acq; auto|]. split; [auto|].
+    apply mk_thread_ok; [eapply sorted_push; eauto|eapply ids_push; eauto using waiting_lt|].
+    cbn. split; [eapply inside_push; eauto|auto].
+  - (* PLRet *) cbn in PO. destruct PO as [R [n [r0 [Hh F]]]]. subst hs. destruct fr as [|f fr].
+    + (* root done *) inv F. pose proof (rooted_single _ _ R) as Z. subst n. inv ST.
+      destruct del.
+      * rewrite length_set_cont. split; [|split; [auto|]].
+        -- eapply heap_ok_shrinks; [exact HO|]. apply shrinks_then_nil. apply shrinks_refl.
+        -- apply mk_thread_ok; cbn; auto.
+      * split; [auto|]. split; [auto|]. apply mk_thread_ok; cbn; auto.
+    + inv ST. rewrite length_do_rel. split; [apply heap_ok_rel; auto|]. split; [auto|].
+      apply mk_thread_ok; [destruct SO; auto|inv IL; auto|]. cbn.
+      split; [eapply rooted_tail; eauto|]. split; [inv F; discriminate|auto].
+  - (* PLBack *) cbn in PO. destruct PO as [R [NE F]]. destruct fr as [|f fr]; [inv F; contradiction|].
+    assert (F0 := F). inversion F0 as [|x f0 l fr0 [Ex Ft] Frest]; subst. clear F0.
+    assert (TK : forall acc', thread_ok (List.length h)
+                   (TH o (PLNext (DF (dn f) (dq f) (dcur f) (dtodo f) acc' :: fr)) ((dn f, MW) :: l))).
+    { intros acc'. apply mk_thread_ok; auto. cbn. split; [auto|]. split; [discriminate|].
+      constructor; [|auto]. split; [reflexivity|auto]. }
+    destruct del.
+    + destruct (get_cont h (dn f)) as [| |cs] eqn:E; inv ST; try (split; [auto|]; split; [auto|]; apply TK).
+      rewrite length_set_cont. split; [|split; [auto|apply TK]].
+      eapply heap_ok_shrinks; [exact HO|]. eapply shrinks_then_set; [apply shrinks_refl|exact E|apply incl_adel].
+    + inv ST. split; [auto|]. split; [auto|]. apply TK.
 Qed.
 
 (** ** what one step does to the mutexes and to the stepping thread *)
@@ -691,6 +776,13 @@ Proof.
   - pose proof (hdelete_shrinks h q) as [L [M _]]. split; [exact M|apply fresh_mu_same_len; auto].
   - destruct (query_visits (get_cont h t) q); auto.
   - destruct fr as [|[|[[c pre0] q0] todo] fr]; auto.
+  - destruct (heads_all q).
+    + destruct (get_cont h n); auto. destruct (strip_glob q); auto.
+    + destruct q as [|k r]; auto. destruct (get_cont h n) as [| |cs]; auto. destruct (assoc k cs); auto.
+  - destruct fr as [|f fr]; auto. destruct (dtodo f) as [|[k c] rest]; auto.
+  - destruct fr as [|f fr]; auto. destruct del; cbn -[set_cont]; auto.
+  - destruct fr as [|f fr]; auto. destruct del; cbn -[set_cont]; auto.
+    destruct (get_cont h (dn f)); cbn -[set_cont]; auto.
 Qed.
 
 Lemma local_step_not_acq h p o hs :
@@ -705,6 +797,9 @@ Proof.
               | match goal with |- context [if Nat.ltb ?a ?b then _ else _] => destruct (Nat.ltb a b) end
               | match goal with |- context [match query_visits ?a ?b with _ => _ end] => destruct (query_visits a b) end
               | match goal with |- context [match query_items ?a ?b ?c with _ => _ end] => destruct (query_items a b c) end
+              | match goal with |- context [if heads_all ?a then _ else _] => destruct (heads_all a) end
+              | match goal with |- context [match strip_glob ?a with _ => _ end] => destruct (strip_glob a) end
+              | match goal with |- context [match dtodo ?a with _ => _ end] => destruct (dtodo a) as [|[? ?] ?] end
               | match goal with |- context [match ?x with _ => _ end] => is_var x; destruct x end ];
             cbn -[Nat.ltb hdelete set_cont new_chain] in *; try discriminate).
 Qed.
@@ -1313,11 +1408,40 @@ Qed.
 
 (** every content access of a critical section other than Delete's is made
     under the lock of the accessed node, writes under its write lock *)
+Definition is_ldel (p : pc) : bool :=
+  match p with
+  | PLDel _ | PLDelAcq _ | PLVisit _ _ _ | PLNext _ | PLEnter _ _ _ | PLCAcq _ _ _
+  | PLRet _ _ _ | PLBack _ _ _ => true
+  | _ => false
+  end.
+
+(** Delete (as of 3480f62) touches a node only under that node's write lock *)
+Lemma access_holds_ldel hl hs p h a :
+  is_ldel p = true -> pc_ok hl hs p -> In a (accesses h p) ->
+  exists m, In (fst (fst a), m) hs /\ (snd a = true -> m = MW).
+Proof.
+  intros L P I. destruct p; try discriminate; cbn in P, I; try contradiction.
+  - destruct P as [[[r0 ->] _] _]. exists MW.
+    destruct I as [<-|[<-|[]]]; cbn; split; auto.
+  - destruct fr as [|f fr]; [contradiction|]. destruct P as [_ [_ F]].
+    inversion F as [|x f0 l fr0 [Ex _] _]; subst.
+    destruct (dtodo f); cbn in I; [|contradiction]. destruct I as [<-|[]].
+    exists MW. cbn. split; auto.
+  - destruct fr as [|f fr]; [|contradiction]. destruct P as [R [n [r0 [-> F]]]].
+    inversion F; subst. pose proof (rooted_single _ _ R) as Z. subst n.
+    destruct I as [<-|[]]. exists MW. cbn. split; auto.
+  - destruct fr as [|f fr]; [contradiction|]. destruct P as [_ [_ F]].
+    inversion F as [|x f0 l fr0 [Ex _] _]; subst.
+    destruct I as [<-|[]]. exists MW. cbn. split; auto.
+Qed.
+
 Lemma access_holds hl hs p h a :
   pc_ok hl hs p -> (forall q, p <> PDelCrit q) -> In a (accesses h p) ->
   exists m, In (fst (fst a), m) hs /\ (snd a = true -> m = MW).
 Proof.
-  intros P ND I. destruct p; cbn in I; try contradiction;
+  intros P ND I.
+  destruct (is_ldel p) eqn:LD; [eapply access_holds_ldel; eauto|].
+  destruct p; try discriminate; cbn in I; try contradiction;
     try (exfalso; eapply ND; reflexivity).
   all: cbn in P.
   all: repeat match goal with
@@ -1380,7 +1504,7 @@ Qed.
 (** The exception is real (known finding 7.17): Leaf.Update through a retained
     handle is at its write while Delete, holding only the root lock, is in its
     critical section reading the same leaf. *)
-Definition race_witness_ops : list cop := [CAdd ["a"%string] 1%Z; CHUpdate 1 5%Z; CDelete ["a"%string]].
+Definition race_witness_ops : list cop := [CAdd ["a"%string] 1%Z; CHUpdate 1 5%Z; CDeleteUnlocked ["a"%string]].
 Definition race_witness_sched : list nat :=
   [0;0;0;0;0;0;0;0;0;0;0;0;0;0;0;0; 1;1;1; 2;2;2].
 
@@ -1402,12 +1526,14 @@ Qed.
 
 (** programs that never unlink or overwrite through a handle *)
 Definition quiet_op (o : cop) : bool :=
-  match o with CDelete _ | CHUpdate _ _ => false | _ => true end.
+  match o with CDelete _ | CDeleteUnlocked _ | CHUpdate _ _ => false | _ => true end.
 
 Definition quiet_pc (p : pc) : bool :=
   match p with
   | PStart o => quiet_op o
   | PDel _ | PDelAcq _ | PDelCrit _ | PHUpd _ _ | PHUpdAcq _ _ | PHUpdWrite _ _ => false
+  | PLDel _ | PLDelAcq _ | PLVisit _ _ _ | PLNext _ | PLEnter _ _ _ | PLCAcq _ _ _
+  | PLRet _ _ _ | PLBack _ _ _ => false
   | _ => true
   end.
 
@@ -1593,7 +1719,7 @@ Proof.
   pose proof (tstep_shape _ _ _ _ _ ST) as SH.
   destruct TO as [_ [IL P]].
   destruct t as [o p hs]. unfold add_ok in *. cbn [top tpc held] in *.
-  destruct o as [pa va| | | | |];
+  destruct o as [pa va| | | | | |];
     try (destruct (lockop_of (TH _ p hs)); repeat match goal with
                                                   | H : _ /\ _ |- _ => destruct H
                                                   | H : exists _, _ |- _ => destruct H
@@ -1773,3 +1899,128 @@ Example concurrent_adds_survive_example :
      = [(["a"; "c"], 3); (["a"; "b"; "x"], 1); (["a"; "b"; "z"], 4); (["a"; "b"; "y"], 2)]%string%Z.
 Proof. vm_compute. repeat split. Qed.
 
+
+(** * The tree as of repo commit 3480f62: Delete locks every node it visits *)
+
+(** programs of the current code (the pre-3480f62 Delete is [CDeleteUnlocked]) *)
+Definition patched_op (o : cop) : bool :=
+  match o with CDeleteUnlocked _ => false | _ => true end.
+
+Definition patched_pc (p : pc) : bool :=
+  match p with
+  | PStart o => patched_op o
+  | PDel _ | PDelAcq _ | PDelCrit _ => false
+  | _ => true
+  end.
+
+Lemma tstep_patched b h t h' t' :
+  patched_pc (tpc t) = true -> tstep_gen b h t = Some (h', t') -> patched_pc (tpc t') = true.
+Proof.
+  intros Q ST. pose proof (tstep_shape _ _ _ _ _ ST) as SH.
+  destruct t as [o p hs]. cbn [tpc top held] in *.
+  destruct (lockop_of (TH o p hs)) eqn:LO.
+  - destruct SH as [_ ->]. cbn [tpc].
+    destruct p; cbn -[Nat.ltb hdelete set_cont new_chain] in *; try discriminate; auto;
+    repeat (first
+              [ match goal with |- context [start_pc ?a ?b] => destruct b end
+              | match goal with |- context [match get_cont ?a ?b with _ => _ end] => destruct (get_cont a b) end
+              | match goal with |- context [match assoc ?a ?b with _ => _ end] => destruct (assoc a b) end
+              | match goal with |- context [if Nat.ltb ?a ?b then _ else _] => destruct (Nat.ltb a b) end
+              | match goal with |- context [match query_visits ?a ?b with _ => _ end] => destruct (query_visits a b) end
+              | match goal with |- context [if heads_all ?a then _ else _] => destruct (heads_all a) end
+              | match goal with |- context [match strip_glob ?a with _ => _ end] => destruct (strip_glob a) end
+              | match goal with |- context [match dtodo ?a with _ => _ end] => destruct (dtodo a) as [|[? ?] ?] end
+              | match goal with |- context [match ?x with _ => _ end] => is_var x; destruct x end ];
+            cbn -[Nat.ltb hdelete set_cont new_chain] in *; try discriminate; auto).
+  - destruct SH as [_ [_ ->]]. cbn [tpc]. destruct p; cbn in *; try discriminate; auto; qfin.
+  - destruct SH as [_ ->]. cbn [tpc]. destruct p; cbn in *; try discriminate; auto; qfin.
+  - destruct SH as [_ [_ ->]]. cbn [tpc]. destruct p; cbn in *; try discriminate; auto; qfin.
+  - destruct SH as [n [m [hs' [_ [_ ->]]]]]. cbn [tpc]. destruct p; cbn in *; try discriminate; auto; qfin.
+Qed.
+
+Lemma reach_patched ops s :
+  forallb patched_op ops = true -> reach ops s ->
+  Forall (fun t => patched_pc (tpc t) = true) (thr s).
+Proof.
+  intros Q R. induction R as [|s i s' R IH ST].
+  - cbn. rewrite forallb_forall in Q. apply Forall_forall. intros t Ht.
+    apply in_map_iff in Ht. destruct Ht as [o [<- Ho]]. cbn. auto.
+  - unfold step, step_gen in ST.
+    destruct (nth_error (thr s) i) as [t|] eqn:Et; [|discriminate].
+    destruct (tstep_gen false (hp s) t) as [[h' t']|] eqn:Ets; [|discriminate]. inv ST. cbn [thr].
+    apply Forall_forall. intros t0 H0. apply In_set_nth in H0. destruct H0 as [->|H0].
+    + eapply tstep_patched; [|exact Ets]. apply (Forall_nth_error _ _ _ _ IH Et).
+    + rewrite Forall_forall in IH. auto.
+Qed.
+
+(** no data race at all: in every reachable state of every program of the
+    current code, no two threads stand at conflicting content accesses --
+    leaf-handle operations against Delete included *)
+Theorem no_data_race_patched ops s i j ti tj :
+  forallb patched_op ops = true -> reach ops s -> i <> j ->
+  nth_error (thr s) i = Some ti -> nth_error (thr s) j = Some tj ->
+  race_between (hp s) ti tj = false.
+Proof.
+  intros Q R D Ei Ej. destruct (race_between (hp s) ti tj) eqn:RB; [exfalso|reflexivity].
+  pose proof (reach_patched _ _ Q R) as PP.
+  destruct (no_data_race ops s i j ti tj R D Ei Ej RB) as [[_ [q Pq]]|[_ [q Pq]]].
+  - pose proof (Forall_nth_error _ _ _ _ PP Ej) as X. cbn in X. rewrite Pq in X. discriminate.
+  - pose proof (Forall_nth_error _ _ _ _ PP Ei) as X. cbn in X. rewrite Pq in X. discriminate.
+Qed.
+
+(** whoever holds the root's write lock (a Delete from its first to its last
+    critical section, an Add restructuring the root) excludes every other
+    tree operation; only single-node handle operations can be under way *)
+Theorem root_writer_excludes ops s i j ti tj :
+  reach ops s -> i <> j ->
+  nth_error (thr s) i = Some ti -> nth_error (thr s) j = Some tj ->
+  In (0, MW) (held ti) ->
+  (is_handle_pc (tpc tj) = false -> held tj = []) /\ (forall m, ~ In (0, m) (held tj)).
+Proof.
+  intros R D Ei Ej Hi. pose proof (reach_Inv _ _ R) as I. pose proof (reach_Excl _ _ R) as EX.
+  destruct I as [HO [TO AC]].
+  assert (NR : forall m, ~ In (0, m) (held tj)).
+  { intros m Hm. eapply (excl_pair s i j ti tj 0 m); eauto. split; [|split]; auto. }
+  split; [|exact NR]. intros NH.
+  pose proof (Forall_nth_error _ _ _ _ TO Ej) as [Sj [_ Pj]].
+  destruct (pc_rooted _ _ _ Sj Pj NH) as [Z|[m Z]]; [exact Z|]. exfalso. eapply NR; eauto.
+Qed.
+
+(** a Delete that has entered the tree holds the root's write lock until it returns *)
+Definition in_delete (p : pc) : bool :=
+  match p with
+  | PLVisit _ _ _ | PLNext _ | PLEnter _ _ _ | PLCAcq _ _ _ | PLRet _ _ _ | PLBack _ _ _ => true
+  | _ => false
+  end.
+
+Lemma dframes_all_mw hl hs fr : dframes_ok hl hs fr -> Forall (fun x => snd x = MW) hs.
+Proof. induction 1 as [|x f hs fr [E _] _ IH]; constructor; auto. subst x. reflexivity. Qed.
+
+Lemma in_delete_holds_root hl t :
+  thread_ok hl t -> in_delete (tpc t) = true -> In (0, MW) (held t).
+Proof.
+  intros [_ [_ P]] D. destruct t as [o p hs]. cbn [tpc held] in *.
+  assert (G : rooted hs -> hs <> [] -> Forall (fun x => snd x = MW) hs -> In (0, MW) hs).
+  { intros [Z|[m Hm]] NE F; [contradiction|]. rewrite Forall_forall in F.
+    specialize (F _ Hm). cbn in F. subst m. exact Hm. }
+  destruct p; try discriminate; cbn in P.
+  - destruct P as [[[r0 ->] R] F]. apply G; auto; [discriminate|].
+    constructor; [reflexivity|]. eapply dframes_all_mw; eauto.
+  - destruct P as [R [NE F]]. apply G; auto. eapply dframes_all_mw; eauto.
+  - destruct P as [[_ [_ [_ R]]] [NE F]]. apply G; auto. eapply dframes_all_mw; eauto.
+  - destruct P as [[_ [_ [_ R]]] [NE F]]. apply G; auto. eapply dframes_all_mw; eauto.
+  - destruct P as [R [n [r0 [-> F]]]]. apply G; auto; [discriminate|].
+    constructor; [reflexivity|]. eapply dframes_all_mw; eauto.
+  - destruct P as [R [NE F]]. apply G; auto. eapply dframes_all_mw; eauto.
+Qed.
+
+Theorem delete_atomic_patched ops s i j ti tj :
+  reach ops s -> i <> j ->
+  nth_error (thr s) i = Some ti -> nth_error (thr s) j = Some tj ->
+  in_delete (tpc ti) = true ->
+  (is_handle_pc (tpc tj) = false -> held tj = []) /\ (forall m, ~ In (0, m) (held tj)).
+Proof.
+  intros R D Ei Ej P. eapply root_writer_excludes; eauto.
+  destruct (reach_Inv _ _ R) as [_ [TO _]].
+  eapply in_delete_holds_root; [eapply Forall_nth_error; eauto|exact P].
+Qed.
